@@ -24,7 +24,7 @@ RULE = (
     "copy / deepcopy / pickle in generated order, then a generated mutation of the copy (set scalar, assign inside a "
     "nested message, list.append, dict[k]=v, in-place mutation of a repeated / map message element, switch oneof "
     "member). Oracle (metamorphic): after each observer bytes(m), the public-observer snapshot (values, oneof "
-    "selection, None-ness, nested presence), is_set of every field (own clause) and m == equal-copy are unchanged (an "
+    "selection, None-ness, nested presence), to_dict in both casings, bool(m), is_set of every field (own clause) and m == equal-copy are unchanged (an "
     "observer that raises is tolerated and counted, state must still be unchanged); each copy c: c == m, bytes equal, "
     "snapshot equal; after mutating a deep copy or an unpickled copy the original's bytes and snapshot are unchanged. "
     "Non-trivial = message with >=1 of {unknown fields, map of messages, present-but-empty nested message, unset "
@@ -65,6 +65,21 @@ def targets(ctx):
         b = guard("bytes", bytes, m)
         snap = norm(schema, mi, guard("snapshot", snap_bp, schema, mi, m, _mode[0]))
         return b, snap
+
+    def json_state(m):
+        """What the message encodes to in JSON form (both casings) and its truth value; a form that cannot be produced
+        (to_dict raising) is part of the state as such."""
+        out = []
+        for cas in (betterproto.Casing.CAMEL, betterproto.Casing.SNAKE):
+            try:
+                out.append(repr(m.to_dict(cas)))
+            except Exception as e:  # noqa: BLE001
+                out.append("raises " + type(e).__name__)
+        try:
+            out.append(bool(m))
+        except Exception as e:  # noqa: BLE001
+            out.append("raises " + type(e).__name__)
+        return out
 
     def is_set_vec(m):
         info = BPInfo.of(type(m))
@@ -198,6 +213,7 @@ def targets(ctx):
             set0 = is_set_vec(m)  # before anything reads the message
             sow0 = sow_vec(m)  # ... and before anything encodes it
             b0, s0 = state(m, mi)
+            j0 = json_state(m)
             eq0 = guard("eq_initial", lambda: m == equal)
             if eq0 is not True:
                 out.append(("equal_messages_not_equal", f"two messages obtained the same way compare {eq0!r}"))
@@ -218,6 +234,9 @@ def targets(ctx):
                     out.append((f"observer_changed_snapshot|{what}", f"before={s0!r:.250} after={s1!r:.250}"))
                 if (m == equal) is not eq0:
                     out.append((f"observer_changed_equality|{what}", "m == equal-copy flipped"))
+                j1 = json_state(m)
+                if j1 != j0:
+                    out.append((f"observer_changed_json_form|{what}", f"to_dict / bool before={j0!r:.250} after={j1!r:.250}"))
                 sow1 = sow_vec(m)
                 if sow1 != sow0:
                     diff = [p for (p, a), (_, b) in zip(sow0, sow1) if a != b] if len(sow0) == len(sow1) else ["<shape>"]
